@@ -83,7 +83,7 @@ PROPS["C11"] = {
     "technique": "explicit-state enumeration of complete tiny elliptic-curve groups over F_p^2 (full Cayley tables per coefficient class, every scalar in [-2r-3, 2r+3] for every routine) built with the real ep2_* code at 8-bit digits, plus point/scalar alphabet products on the BN_P256 / SM9_P256 twists including twist points outside G2, against an affine chord-and-tangent reference over F_p[u]/(u^2 - beta) on GMP",
     "level_text": "Complete groups: curves over F_p^2 (p = 23, 29, 251) found by reference point counting are installed through the public ep2_curve_set API; on ~530-point curves (a = -3, 0, 1, 2, one-digit, general; an even-order curve with order-two points; p = 1 mod 4) the complete Cayley table is run through every addition/doubling formula (affine, projective, Jacobian) in every operand representation and alias pattern; on 16-bit prime-order curves every scalar in [-2r-3, 2r+3] through every variable-base, fixed-base, generator, digit and simultaneous routine. "
                   "On the 256-bit twists: G2 members and twist points outside G2 (x = i + j u lifted by reference square root), scalar alphabet incl. GLS boundary values, the Frobenius endomorphism (eigenvalue p on G2, additivity, characteristic equation psi^2 - [t]psi + [p] = 0 on every enumerated twist point, powers 1..4) and cofactor clearing ([r]R' = identity, R' = identity only if [h]R is).",
-    "level_note": "Trusted: ref_ec2.h (F_p^2 by definition with beta = u^2 learned from the library and validated as a non-residue), harness glue. Tiny curves have no twist structure, so Frobenius-based routines (ep2_frb, GLS recodings, fast cofactor clearing) are judged at 256 bits only. Recoding-based multiplications (lwnaf, lwreg, fixed-base) are judged on points of the order-r subgroup (they reduce the scalar modulo r). Curves over cubic/quartic/octic extensions (ep3/ep4/ep8) are not driven: their pairing families need separate field-size builds and a reference over those towers; listed as not reached. The thorough tier also runs the 446-bit builds (BN_P446; B12_P446 where its twist is defined, i.e. under FP_QNRES).",
+    "level_note": "Trusted: ref_ec2.h (F_p^2 by definition with beta = u^2 learned from the library and validated as a non-residue), harness glue. Tiny curves have no twist structure, so Frobenius-based routines (ep2_frb, GLS recodings, fast cofactor clearing) are judged at 256 bits only. Recoding-based multiplications (lwnaf, lwreg, fixed-base) are judged on points of the order-r subgroup (they reduce the scalar modulo r). Curves over cubic/quartic/octic extensions (ep3/ep4/ep8) have no curve-arithmetic reference; they are judged through the pairing oracle of the family jobs (subgroup points only; points outside the subgroup only via validity / cofactor clearing). The thorough tier also runs the 446-bit builds (BN_P446; B12_P446 where its twist is defined, i.e. under FP_QNRES).",
     "rule": "cases are (curve, operation group, points, scalars); tiny worlds: complete point lists / scalar ranges by odometer; W64: alphabet products; all cases non-trivial; distinct by 64-bit hash; transitions = individual routine results compared with the reference.",
     "assumptions": ["reference group law in ref_ec2.h", "calls inside RLC_TRY", "DRBG/RNG re-seeded identically before every randomised routine"],
     "jobs": [
@@ -120,7 +120,7 @@ PROPS["C12"] = {
     "level": "model_checking",
     "technique": "bounded exhaustive enumeration of constructed candidate sets (members, identity, off-curve, curve/twist points outside the order-r subgroup, cofactor parts, small-order points, member + non-member; target-field elements outside the cyclotomic subgroup, cyclotomic elements of order not dividing r) through the real membership predicates, and of scalar alphabets through every g1_/g2_/gt_ multiplication form, against the definition evaluated by reference group laws and a reference quotient-ring tower on GMP",
     "level_text": "Per parameter set (BN_P256 with D-type twist, SM9_P256 with M-type twist; B12_P381 in the 381-bit build, where G1 has a cofactor): the expected verdict of g1_is_valid / g2_is_valid / gt_is_valid is the definition itself -- on the curve, not the identity, annihilated by r -- computed by plain reference multiplication / exponentiation (no endomorphism shortcut). Candidates are built by the reference: multiples of the generators, off-curve neighbours, points lifted from small x (outside the subgroup when a cofactor exists), their [r]- and [h]-multiples, sums member + cofactor part, points of every prime order < 2^20 dividing the cofactor, points of another twist; GT: powers of the generator, 0, 1, -1, -g, sparse and dense field elements, their images under the easy part of the final exponentiation (cyclotomic, order not dividing r), those times a member, and their images under the hard part (members unrelated to the generator). Exponentiation: g1/g2 mul, mul_sec, mul_any, mul_dig, mul_gen, mul_fix, mul_sim, mul_sim_lot, mul_sim_gen and gt_exp, gt_exp_sec, gt_exp_dig, gt_exp_gen, gt_exp_sim for scalars 0, +-1, r-1, r, r+1, 2r, 2^k boundaries, longer than r, negative, curve-parameter multiples. Other families (thorough, C04_fam.c, bounds c11-): on the curves over F_p^3, F_p^4, F_p^8 of the KSS18, KSS16/B24, B48 builds the pairing with a fixed G1 generator is an exact oracle (G2 cyclic of prime order, pairing non-degenerate: X = [k]G2 iff e(G1, X) = E0^k in the reference tower): EVERY multiplication routine (26 forms incl. regular, ladder, every table method, simultaneous forms) x 18 scalars; the group law in every coordinate system and operand representation over all 12 x 12 index pairs (equal, opposite, identity operands); twist points found by solving the curve equation: rejected by g2_is_valid, mapped into the order-r subgroup by cofactor clearing; the Frobenius endomorphism for every power 0..k+1 on affine and projective operands (e(G1, frb^i([j]G2)) = E0^(j p^i)). The B24 build (315 bits) also runs in the quick tier; the thorough tier adds one build per remaining pairing field size (158 .. 768 bits). Other families (thorough, C04_fam.c, bounds c12-): validity predicates on members, identities and non-members, every G1 multiplication form and every GT exponentiation form (gt_exp, _sec, _dig, _gen, _sim, inverse, square/multiply, Frobenius) against the reference tower of degree 16, 18, 24, 48.",
-    "level_note": "Trusted: ref_ec.h / ref_ec2.h group laws, ref_ext.h tower with each level's constant read from the library and validated irreducible, twist type derived from the coefficients (b' = b/xi or b*xi). The k = 8, 16, 18, 24, 48 families need their own field-size builds and references over ep3/ep4/ep8 and are not driven. The thorough tier also runs the 446-bit builds (BN_P446; B12_P446 where its twist is defined, i.e. under FP_QNRES).",
+    "level_note": "Trusted: ref_ec.h / ref_ec2.h group laws, ref_ext.h tower with each level's constant read from the library and validated irreducible, twist type derived from the coefficients (b' = b/xi or b*xi). The k = 8, 16, 18, 24, 48 families are judged by the family jobs (pairing as oracle, reference tower of degree k) in one build per field size. The thorough tier also runs the 446-bit builds (BN_P446; B12_P446 where its twist is defined, i.e. under FP_QNRES).",
     "rule": "cases are (parameter set, predicate or routine, candidate / base, scalar(s)); all counted non-trivial; distinct by 64-bit hash; transitions = individual verdicts / results compared with the reference.",
     "assumptions": ["reference group laws and tower", "calls inside RLC_TRY", "DRBG re-seeded identically before every randomised routine"],
     "jobs": [
@@ -154,7 +154,7 @@ PROPS["C04"] = {
     "level": "model_checking",
     "technique": "bounded exhaustive enumeration of (map, base points, scalar pair, operand representation) products and of multi-pairing lists with identities at every subset of positions through the real pairing code; oracle = the algebraic property itself with both sides computed independently: multiples [a]P, [b]Q by reference group laws, the power e(P,Q)^(ab) by a reference quotient-ring tower on GMP",
     "level_text": "Per parameter set (BN_P256/D-type, SM9_P256/M-type; B12_P381 in the 381-bit build) and per map (pc_map, optimal ate, Tate, Weil): E0 = e(P0, Q0) for three base pairs must not be 0 or 1 and must satisfy E0^r = 1 (reference power); e([a]P0, [b]Q0) must equal E0^(ab mod r) for every (a, b) in {0, 1, 2, -1, r-1, r, r+1, 2^64, a 200-bit value}^2 (thorough: 13 scalars), with operands in affine and projective form (four combinations) -- identity operands arise as a or b in {0, r}; multi-pairings pc_map_sim / pp_map_sim_* over m in 0..4 (thorough 0..6) pairs with an identity in the G1 slot, the G2 slot or both at EVERY subset of positions for m <= 3 and at each single position above must equal E0^(sum a_i b_i). gt_get_gen must equal pc_map of the generators. Other families (thorough, C04_fam.c): in the builds of the shipped presets for B24 (315 bits), KSS16 (330), KSS18 (638) and B48 (575, FP_QNRES) the set chosen by pc_param_set_any is driven through the pairing-group layer: E0 = e(G1, G2) is read once, checked non-trivial and of order r in a reference tower of degree k = 24, 16, 18, 48 (constants read from the library and validated irreducible), and e([a]G1, [b]G2) = E0^(ab) is compared coefficient by coefficient over the 18 x 18 scalar alphabet (normalised and un-normalised points), multi-pairings over every identity pattern of up to three pairs.",
-    "level_note": "No reference pairing: the value E0 itself is not compared with an external implementation, only its algebraic properties (which characterise a non-degenerate bilinear map up to a fixed power). Trusted: reference group laws and tower as in C12. A toy pairing world is not used: tiny BN/BLS parameters make Miller-loop exceptional cases frequent that cannot occur for 256-bit r. The k = 8, 16, 18, 24, 48 families are not driven (separate builds). The thorough tier also runs the 446-bit builds (BN_P446; B12_P446 where its twist is defined, i.e. under FP_QNRES).",
+    "level_note": "No reference pairing: the value E0 itself is not compared with an external implementation, only its algebraic properties (which characterise a non-degenerate bilinear map up to a fixed power). Trusted: reference group laws and tower as in C12. A toy pairing world is not used: tiny BN/BLS parameters make Miller-loop exceptional cases frequent that cannot occur for 256-bit r. The k = 8, 16, 18, 24, 48 families are judged by the family jobs in one build per field size; k = 54 is not (the pairing-group layer does not serve it). The thorough tier also runs the 446-bit builds (BN_P446; B12_P446 where its twist is defined, i.e. under FP_QNRES).",
     "rule": "cases are (set, map, base, a, b, repP, repQ) and (set, map, m, identity pattern, scalar pattern); all non-trivial; distinct by 64-bit hash; transitions = pairing values compared.",
     "assumptions": ["reference group laws and tower", "calls inside RLC_TRY"],
     "jobs": [
@@ -188,7 +188,7 @@ PROPS["C18"] = {
     "level": "model_checking",
     "technique": "exhaustive enumeration of the configuration space: every identifier value 0..255 is offered to fp_param_set, ep_param_set and eb_param_set in each verified build; every accepted parameter set is put through every consistency obligation, decided with GMP primality tests, reference group laws (prime, F_p^2, binary) and a reference quotient-ring tower, never with the library's own arithmetic",
     "level_text": "Per selectable set: p prime and of the configured size, Montgomery constants, non-residues, 2-adicity, sparse forms; curve non-singular, generator on the curve, r prime, [r]G = O, Hasse bound for r h, [r h]T = O for 8 independent curve points (with Hasse and r prime this pins the order), ep_mul_cof maps them into the subgroup and kills exactly what [h] kills, advertised level vs bits(r), coefficient-class flags; endomorphism curves: beta primitive cube root of unity, (beta x, y) = [lambda]G for a root of l^2 + l + 1 mod r, ep_psi agrees, GLV decomposition through the stored lattice satisfies k0 + k1 lambda = k mod r with half-length parts on 12 scalars; pairing sets: p and r equal the family polynomials at the stored parameter and its sparse form, r | Phi_12(p), r divides no p^j - 1 (j | 12, j < 12), twist type derived from b' (b/xi or b xi), G2 on the twist and of order r, Hasse over F_p^2, [r h2]T = O for 4 twist points, ep2_mul_cof lands in G2, psi(G2) = [p]G2, e(G1, G2) non-degenerate, of order r and equal to gt_get_gen; binary sets: f(z) irreducible by Rabin's test, curve non-singular, generator on the curve, r prime, [r]G = O, Hasse, [r h]T = O for 8 points built by half-trace, Koblitz flag, level.",
-    "level_note": "Worlds: the shipped 256/283-bit build, the 381-bit build (B12_P381) and the 255-bit build. Edwards parameter sets are decided in C17's harness (same obligations on the Edwards reference). The k = 8, 16, 18, 24, 48, 54 families and the other field sizes need one build each and are not visited: listed as not reached. Hash-to-curve constants are decided where they are used (C13). The thorough tier also runs the 446-bit builds (BN_P446; B12_P446 where its twist is defined, i.e. under FP_QNRES). In the builds of the other families (315, 330, 575, 638 bits; thorough) every selectable set gets the field, curve, order, cofactor, level and embedding-degree obligations (the multiplicative order of p modulo r must be the advertised k, for any family); twist / tower / pairing-value obligations of the k != 12 families are judged by the family job of C04.",
+    "level_note": "Worlds: the shipped 256/283-bit build, the 381-bit build (B12_P381) and the 255-bit build. Edwards parameter sets are decided in C17's harness (same obligations on the Edwards reference). The builds of the other pairing field sizes are visited in the thorough tier (315, 330, 446, 575, 638 bits); sizes without a build here (e.g. 569 for k = 54, 1536 and above) are not reached. Hash-to-curve constants are decided where they are used (C13). The thorough tier also runs the 446-bit builds (BN_P446; B12_P446 where its twist is defined, i.e. under FP_QNRES). In the builds of the other families (315, 330, 575, 638 bits; thorough) every selectable set gets the field, curve, order, cofactor, level and embedding-degree obligations (the multiplicative order of p modulo r must be the advertised k, for any family); twist / tower / pairing-value obligations of the k != 12 families are judged by the family job of C04.",
     "rule": "cases are (selection function, identifier) for all 3 x 256 identifier values: non-trivial when the identifier is accepted; states = selectable parameter sets; transitions = obligations evaluated.",
     "assumptions": ["GMP primality (64 Miller-Rabin rounds)", "reference group laws and tower"],
     "jobs": [
